@@ -20,6 +20,8 @@ func c09(r *core.Report) {
 	c09NotFound(r)
 	c09Encoded(r)
 	c09Boundary(r)
+	c09Backtrack(r)
+	c09Stable(r)
 }
 
 // methodConstAndFields: the http.Method* constants and the *Operation fields of PathItem mentioned in a node.
@@ -564,5 +566,168 @@ func c09Boundary(r *core.Report) {
 		})
 		r.Check(mismatch, "boundary:mismatch-return", p.Pos(fd.Pos()), "a non-rooted remainder is a mismatch", "MatchRawURL has no `no match` return for a remainder that does not start with '/': a server URL matches any URL it is a textual prefix of, in the middle of a segment or host label")
 		r.Check(nSuccess > 0 && success, "boundary:success-return", p.Pos(fd.Pos()), "success only with a rooted remainder", "MatchRawURL's success return is not guarded by the remainder starting with '/'")
+	})
+}
+
+// c09Backtrack: the legacy router's pattern tree is searched with backtracking -- a branch that
+// matches a prefix of the path but leads nowhere must not end the search, the sibling branches
+// (a variable next to a literal, a regular expression next to a variable) still have to be tried.
+func c09Backtrack(r *core.Report) {
+	p := r.Prog
+	pkg := p.Pkg("routers/legacy/pathpattern")
+	info := pkg.TypesInfo
+	r.RunRule("C09.backtrack", "the pattern tree is searched with backtracking: in every self-recursive function of package pathpattern that tries alternatives in a loop, a return inside the loop hands back a result only where it was tested non-nil (`resultNode != nil`): returning the outcome of one branch unconditionally abandons its siblings", 1, func() {
+		n := 0
+		for _, d := range p.AllDecls("routers/legacy/pathpattern") {
+			if d.Body == nil || d.Type.Results == nil {
+				continue
+			}
+			self, _ := info.Defs[d.Name].(*types.Func)
+			// a loop that contains a recursive call
+			var loops []*ast.RangeStmt
+			ast.Inspect(d.Body, func(nd ast.Node) bool {
+				rs, ok := nd.(*ast.RangeStmt)
+				if !ok {
+					return true
+				}
+				rec := false
+				ast.Inspect(rs.Body, func(m ast.Node) bool {
+					if c, ok := m.(*ast.CallExpr); ok && core.CalleeOf(info, c) == self {
+						rec = true
+					}
+					return true
+				})
+				if rec {
+					loops = append(loops, rs)
+				}
+				return true
+			})
+			for _, lp := range loops {
+				k := 0
+				ast.Inspect(lp.Body, func(nd ast.Node) bool {
+					if _, isLit := nd.(*ast.FuncLit); isLit {
+						return false
+					}
+					ret, ok := nd.(*ast.ReturnStmt)
+					if !ok || len(ret.Results) == 0 {
+						return true
+					}
+					n++
+					k++
+					key := fmt.Sprintf("backtrack:%s#%d", core.FuncName(d), k)
+					first := ast.Unparen(ret.Results[0])
+					if tv, ok := info.Types[first]; ok && tv.IsNil() {
+						r.Trivial(key, p.Pos(ret.Pos()), "returns no match")
+						return true
+					}
+					good := false
+					if id, ok := first.(*ast.Ident); ok {
+						for _, a := range core.Atoms(core.GuardsAt(info, d.Body, ret)) {
+							be, ok := ast.Unparen(a.Expr).(*ast.BinaryExpr)
+							if !ok {
+								continue
+							}
+							nonNil := (be.Op == token.NEQ && a.Pos) || (be.Op == token.EQL && !a.Pos)
+							if !nonNil {
+								continue
+							}
+							for _, pair := range [][2]ast.Expr{{be.X, be.Y}, {be.Y, be.X}} {
+								if x, ok := ast.Unparen(pair[0]).(*ast.Ident); ok && info.ObjectOf(x) == info.ObjectOf(id) {
+									if tv, ok := info.Types[pair[1]]; ok && tv.IsNil() {
+										good = true
+									}
+								}
+							}
+						}
+					}
+					if good {
+						r.OK(key, p.Pos(ret.Pos()), "returns a branch's result only when it is a match")
+					} else {
+						r.Bad(key, p.Pos(ret.Pos()), fmt.Sprintf("inside the loop over alternatives, `return %s` hands back the outcome of one branch without testing that it matched: when that branch leads nowhere the remaining alternatives (a variable or regular-expression segment next to a literal one) are never tried and an existing route is reported as not found", core.ExprStr(ret.Results[0])))
+					}
+					return true
+				})
+			}
+		}
+		if n == 0 {
+			core.Fail("no return inside a loop over alternatives found in a recursive function of pathpattern")
+		}
+	})
+}
+
+// c09Stable: an order built in two passes (sort by a, then by b) needs a stable second pass. The
+// matching order of path templates is such an order (fewest variables first, reverse lexicographic
+// within): sort.Sort and sort.Slice keep equal elements in place only by accident (the
+// insertion-sort path, up to 12 elements).
+func c09Stable(r *core.Report) {
+	p := r.Prog
+	r.RunRule("C09.stable", "no order is built by two sorting passes the second of which is unstable: when one function sorts the same slice twice, the later call is sort.Stable / sort.SliceStable — after sort.Sort, sort.Slice, sort.Strings the first pass's order among equal elements is arbitrary (the gorilla/mux router registers templates in Paths.InMatchingOrder and the first registered match wins)", 10, func() {
+		rels := []string{"openapi3", "openapi2", "openapi2conv", "openapi3filter", "openapi3gen", "routers", "routers/gorillamux", "routers/legacy", "routers/legacy/pathpattern"}
+		for _, rel := range rels {
+			pkg := p.PkgOpt(rel)
+			if pkg == nil {
+				continue
+			}
+			info := pkg.TypesInfo
+			for _, d := range p.AllDecls(rel) {
+				if d.Body == nil {
+					continue
+				}
+				type sc struct {
+					call   *ast.CallExpr
+					obj    types.Object
+					stable bool
+					name   string
+				}
+				var calls []sc
+				ast.Inspect(d.Body, func(n ast.Node) bool {
+					c, ok := n.(*ast.CallExpr)
+					if !ok || len(c.Args) == 0 {
+						return true
+					}
+					f := core.CalleeOf(info, c)
+					if f == nil || f.Pkg() == nil || f.Pkg().Path() != "sort" {
+						return true
+					}
+					switch f.Name() {
+					case "Sort", "Slice", "Strings", "Ints", "Float64s", "Stable", "SliceStable":
+					default:
+						return true
+					}
+					// the slice variable at the bottom of conversions / sort.Reverse(...)
+					e := ast.Unparen(c.Args[0])
+					for {
+						if ce, ok := e.(*ast.CallExpr); ok && len(ce.Args) == 1 {
+							e = ast.Unparen(ce.Args[0])
+							continue
+						}
+						break
+					}
+					id := core.RootIdent(e)
+					if id == nil {
+						return true
+					}
+					calls = append(calls, sc{c, info.ObjectOf(id), f.Name() == "Stable" || f.Name() == "SliceStable", "sort." + f.Name()})
+					return true
+				})
+				for i, c := range calls {
+					key := fmt.Sprintf("stable:%s#%d", core.FuncName(d), i+1)
+					var prev *sc
+					for j := 0; j < i; j++ {
+						if calls[j].obj == c.obj && c.obj != nil {
+							prev = &calls[j]
+						}
+					}
+					switch {
+					case prev == nil:
+						r.OK(key, p.Pos(c.call.Pos()), "the only sorting pass over this slice in the function")
+					case c.stable:
+						r.OK(key, p.Pos(c.call.Pos()), "second pass is stable")
+					default:
+						r.Bad(key, p.Pos(c.call.Pos()), fmt.Sprintf("%s sorts %s again after %s at %s: the second pass is not stable, so the order the first pass gave to elements that compare equal here is lost (beyond 12 elements the algorithm no longer degenerates to an insertion sort)", c.name, c.obj.Name(), prev.name, p.Pos(prev.call.Pos())))
+					}
+				}
+			}
+		}
 	})
 }
